@@ -4,6 +4,7 @@ package main
 
 import (
 	"bufio"
+	"context"
 	"encoding/base64"
 	"encoding/json"
 	"fmt"
@@ -409,3 +410,87 @@ func cmdParseFuzz(args []string) error {
 	enc.Encode(map[string]interface{}{"ev": "fuzzsummary", "total": total, "counts": counts})
 	return nil
 }
+
+// verifh loadparse <cases.json> <scratchdir> <out.ndjson>
+// The same inputs as `parse`, but read the way the running application reads them: as a file in a configuration
+// directory, through config.LoadDeviceConfigs (directory walk, readDeviceConfig, error reporting).  Outcome "config" =
+// the loader returned without error (the file was used or skipped), "error" = it returned an error.
+func cmdLoadParse(args []string) error {
+	if len(args) != 3 {
+		return fmt.Errorf("usage: verifh loadparse <cases.json> <scratchdir> <out.ndjson>")
+	}
+	go func() {
+		for range logger.Messages {
+		}
+	}()
+	raw, err := os.ReadFile(args[0])
+	if err != nil {
+		return err
+	}
+	var cases []parseCase
+	if err := json.Unmarshal(raw, &cases); err != nil {
+		return err
+	}
+	root := args[1]
+	for _, d := range []string{"factory/gamepad", "factory/keyboard", "user/gamepad", "user/keyboard"} {
+		if err := os.MkdirAll(root+"/hidi-config/"+d, 0o777); err != nil {
+			return err
+		}
+	}
+	if err := os.Chdir(root); err != nil {
+		return err
+	}
+	f, err := os.Create(args[2])
+	if err != nil {
+		return err
+	}
+	defer f.Close()
+	w := bufio.NewWriterSize(f, 1<<20)
+	defer w.Flush()
+	enc := json.NewEncoder(w)
+	timeouts := 0
+	for i, c := range cases {
+		if timeouts >= 3 {
+			break
+		}
+		dir := []string{"user/keyboard", "factory/gamepad"}[i%2]
+		path := "hidi-config/" + dir + "/case.toml"
+		if err := os.WriteFile(path, []byte(c.Toml), 0o666); err != nil {
+			return err
+		}
+		noteCurrent(c.ID, "via-loader", []byte(c.Toml))
+		ch := make(chan parseResult, 1)
+		go func() {
+			defer func() {
+				if p := recover(); p != nil {
+					ch <- parseResult{outcome: "panic", msg: fmt.Sprint(p)}
+				}
+			}()
+			var wg sync.WaitGroup
+			if _, err := config.LoadDeviceConfigs(context.Background(), &wg); err != nil {
+				ch <- parseResult{outcome: "error", msg: err.Error()}
+				return
+			}
+			ch <- parseResult{outcome: "config"}
+		}()
+		var r parseResult
+		select {
+		case r = <-ch:
+		case <-time.After(5 * time.Second):
+			r = parseResult{outcome: "timeout", msg: "LoadDeviceConfigs did not return within 5s"}
+			timeouts++
+		}
+		os.Remove(path)
+		l := parseLine{Ev: "parse", ID: c.ID, Kind: "via-loader", Outcome: r.outcome, Msg: r.msg}
+		if r.outcome == "panic" || r.outcome == "timeout" {
+			l.Input = base64.StdEncoding.EncodeToString([]byte(c.Toml))
+			w.Flush()
+		}
+		if err := enc.Encode(l); err != nil {
+			return err
+		}
+	}
+	return nil
+}
+
+func init() { extraCommands["loadparse"] = cmdLoadParse }
